@@ -174,7 +174,9 @@ def fam_f(tier):
                 [{"push": ["&genreg-1.64"]}, {"mov": [{"$deref": {"main_reg": "rax", "register_multiplier": "&genreg-1.64", "constant_multiplier": 4,
                                                                    "constant_offset": "0x8"}}]}]):
         rules.append(e1.RuleCase("F3", pat, "f", want=("verdict",)))
-    for pat in ([{"mov": [{"$deref": {"main_reg": "&r", "constant_offset": "0x8"}}, "&r"]}],
+    for pat in ([{"mov": [{"$deref": {"main_reg": "&r"}}]}, {"push": ["&r"]}],       # a one-field $deref defining a capture: operands with more components must not match
+                [{"mov": [{"$deref": {"main_reg": "rax", "constant_offset": "&k"}}]}],
+                [{"mov": [{"$deref": {"main_reg": "&r", "constant_offset": "0x8"}}, "&r"]}],
                 [{"mov": [{"$deref": {"main_reg": "rax", "constant_offset": "&k"}}]}, {"push": ["&k"]}],
                 [{"push": ["&r"]}, {"mov": [{"$deref": {"main_reg": "&r"}}]}],
                 [{"push": ["&r"]}, {"mov": [{"$deref": {"main_reg": "&r", "constant_offset": "0x8"}}, "&r"]}]):
